@@ -18,6 +18,7 @@ REAL_TEXTS = [
     "a.b.c d-e-f g_h_i\nx1 y2 z3\n",
     "one\n\n\ntwo\n",
     "    leading and trailing    \n\tTab\tseparated\n",
+    "m = f(\"\\\\(x\\\\)\", s)\nq \\( r \\\\( t ) u )\n",
 ]
 
 MOTIONS = ["h", "l", "0", "^", "$", "w", "b", "e", "W", "B", "E", "ge", "gE", "j", "k", "gg", "G", "fa", "Fa", "ta", "Ta", "fb", "t.", "f ", "|"]
@@ -60,6 +61,10 @@ def commands():
         for t in TYPED:
             out.append((f"{s} session", [s + t + "<esc>"]))
         out.append((f"N{s} session", ["2" + s + "ab<esc>"]))
+    # a finished insert session leaves nothing behind that a later motion or operator could feel
+    for sk in ["A", "i", "a"]:
+        for m in ["b", "B", "db", "2b", "ge", "dB"]:
+            out.append((f"{sk} session then {m}", [sk + "ab<esc>", m]))
     # yank then put
     for y in ["yw", "yy", "y$", "yiw", "2yy"]:
         for p in ["p", "P", "2p"]:
